@@ -182,7 +182,11 @@ func newServer(upstreamURL string, ingestPort int, mode string) *statsd.Server {
 	v := viper.New()
 	ht := map[string]interface{}{"api-endpoint": upstreamURL, "max-request-elapsed-time": "-1ns", "compress": false, "consolidator-slots": 2, "flush-interval": "1h"}
 	for k, val := range forwarderTuning {
-		ht[k] = val
+		if val == nil {
+			delete(ht, k) // left unset: the documented default applies
+		} else {
+			ht[k] = val
+		}
 	}
 	v.Set("http-transport", ht)
 	v.Set("http-servers", []string{"ingest"})
@@ -350,12 +354,13 @@ func TestExtensionOrdering(t *testing.T) {
 		defer up.Close()
 		ingestPort, telePort := freePort(), freePort()
 		forwarderTuning = map[string]interface{}{
-			"consolidator-slots": rapid.SampledFrom([]int{1, 2, 4}).Draw(t, "consolidator-slots"),
+			"consolidator-slots": rapid.SampledFrom([]interface{}{1, 2, 4, nil}).Draw(t, "consolidator-slots"), // nil: unset, defaults to max-parsers
 			"concurrent-merge":   rapid.SampledFrom([]int{1, 1, 2, 3}).Draw(t, "concurrent-merge"),
 			"max-requests":       rapid.SampledFrom([]int{1, 2, 1000}).Draw(t, "max-requests"),
 			"compress":           rapid.Bool().Draw(t, "compress"),
 		}
 		srv := newServer(up.URL, ingestPort, "forwarder")
+		srv.MaxParsers = rapid.SampledFrom([]int{1, 1, 3}).Draw(t, "max-parsers")
 		// rarely the gostatsd server comes up slowly: its forwarder registers with the flush coordinator only after the
 		// manager's start-up allowance (100 ms) has passed and the initial flush has been asked for. Same wiring as
 		// lambda.NewExtension, with the server's Run held back by the harness.
